@@ -232,6 +232,17 @@ func (e *Enc) headerFor(cover bool) string {
 		b.WriteString(smtHeader)
 	}
 	for _, d := range e.decls {
+		if cover {
+			// cover queries (expected sat) run without quantified background facts: drop the axiom lines of a declaration
+			var kept []string
+			for _, l := range strings.Split(d, "\n") {
+				if strings.HasPrefix(l, "(assert (forall") {
+					continue
+				}
+				kept = append(kept, l)
+			}
+			d = strings.Join(kept, "\n")
+		}
 		b.WriteString(d)
 		b.WriteByte('\n')
 	}
@@ -392,8 +403,50 @@ func (e *Enc) toAny(t types.Type, v Term) Term {
 		return app("aslice", tag, v)
 	default:
 		b, _ := e.boxFn(s)
+		e.boxSurjective(t, s)
 		return app("abox", tag, app(b, v))
 	}
+}
+
+// boxSurjective: for a struct sort that is countably infinite (integer / string / bool fields only, at least one
+// integer), box and unbox are made mutually inverse: every boxed payload that is ever unboxed is the box of what
+// it unboxes to, so any(x.(T)) == x for an x holding a T. (Sorts with real-valued fields are left with the
+// one-directional axiom only.)
+func (e *Enc) boxSurjective(t types.Type, sort string) {
+	if e.declared["boxsurj:"+sort] {
+		return
+	}
+	hasInt := false
+	var ok func(t types.Type, depth int) bool
+	ok = func(t types.Type, depth int) bool {
+		if depth > 4 {
+			return false
+		}
+		switch u := t.Underlying().(type) {
+		case *types.Basic:
+			if u.Info()&types.IsInteger != 0 {
+				hasInt = true
+				return true
+			}
+			return u.Info()&(types.IsBoolean|types.IsString) != 0
+		case *types.Pointer, *types.Map, *types.Chan:
+			hasInt = true
+			return true
+		case *types.Struct:
+			for i := 0; i < u.NumFields(); i++ {
+				if !ok(u.Field(i).Type(), depth+1) {
+					return false
+				}
+			}
+			return true
+		}
+		return false
+	}
+	if !ok(t, 0) || !hasInt {
+		return
+	}
+	b, u := e.boxFn(sort)
+	e.decl("boxsurj:"+sort, fmt.Sprintf("(assert (forall ((i Int)) (! (= (%s (%s i)) i) :pattern ((%s i)))))", b, u, u))
 }
 
 // fromAny extracts the payload of an Any known (or assumed) to hold type t.
@@ -417,6 +470,7 @@ func (e *Enc) fromAny(t types.Type, a Term) Term {
 		return app("aslv", a)
 	default:
 		_, u := e.boxFn(s)
+		e.boxSurjective(t, s)
 		return app(u, app("abx", a))
 	}
 }
